@@ -20,6 +20,7 @@ import (
 	"context"
 	"crypto/sha256"
 	"crypto/x509"
+	"encoding/binary"
 	"encoding/hex"
 	"errors"
 	"net/http"
@@ -579,6 +580,16 @@ func (a *jwtAuthenticator) calculateCacheKey(ep *endpoint.Endpoint, renderedURL,
 	digest.Write(ep.Hash())
 	digest.Write(stringx.ToBytes(renderedURL))
 	digest.Write(stringx.ToBytes(reference))
+
+	// the ttl can be redefined on the rule level. An entry stored by an instance with a longer
+	// ttl must not be used by an instance configured with a shorter one beyond that ttl
+	if a.ttl != nil {
+		const int64BytesCount = 8
+
+		ttlBytes := make([]byte, int64BytesCount)
+		binary.LittleEndian.PutUint64(ttlBytes, uint64(*a.ttl))
+		digest.Write(ttlBytes)
+	}
 
 	return hex.EncodeToString(digest.Sum(nil))
 }
